@@ -1,5 +1,6 @@
 """C20 — gogenproto: protoc gets exactly the in-scope protos, includes, mappings."""
 import json
+import os
 
 import proto_lib as pl
 import vlib
@@ -99,6 +100,24 @@ def run(ctx):
             ("random", ["-mode", "random", "-n", 90 if quick else 1500, "-flagsets", 2 if quick else 8]),
             ("edge", ["-mode", "edge", "-n", 54 if quick else 1000, "-flagsets", 2 if quick else 8])]
     terms, jsons = [], []
+    # corpus files first: minimised case descriptions kept from earlier disagreements / mutations
+    cdir = os.path.join(vlib.VERIF, "corpus", "C20")
+    cspecs = []
+    if os.path.isdir(cdir):
+        for n in sorted(os.listdir(cdir)):
+            if n.endswith(".json"):
+                sp = json.load(open(os.path.join(cdir, n)))
+                sp = sp.get("spec", sp)
+                sp["kind"] = "corpus-file"
+                cspecs.append(sp)
+    if cspecs:
+        t, j, err = pl.run_specs(ctx, tools, "corpusfiles", cspecs)
+        if err:
+            ctx.report({"unchecked": "harness run", "detail": err}, {"kind": "harness"}, failing_input=False)
+            return
+        terms += t
+        jsons += j
+        ctx.log("harness corpus files: %d cases" % len(t))
     for tag, args in runs:
         t, j, err = pl.run_harness(ctx, tools, tag, args)
         if err:
